@@ -19,11 +19,11 @@ RULE = ('case = (initial contents of the five regions, sequence of 1-5 (address,
 ASSUMPTIONS = ['addresses are non-negative integers; data is a bytes-like object (the documented argument types)']
 PARTIAL = ''
 CLAIM = dict(
-    text=("Theorems C18_write / C18_reject / C18_history / C18_bytes (Coq, closed under the global context) about a model of "
+    text=("Theorems C18_write / C18_reject / C18_history / C18_bytes / C18_history_bytes (Coq, closed under the global context) about a model of "
           "Game.write_cart_data whose guard, skip test, four slice-bound expressions and memory-map constants are "
           "regenerated from game.py on every run: every in-range write of any data at any address leaves the "
           "concatenated regions equal to the flat splice and keeps region sizes; out-of-range is rejected; sequences "
-          "compose; C18_bytes reads the same byte by byte (addressed bytes = data, every other byte of the image unchanged). Tie: translator self-test lemmas + correspondence of the extracted model with the real function "
+          "compose; C18_bytes reads the same byte by byte (addressed bytes = data, every other byte of the image unchanged; for histories: last writer wins). Tie: translator self-test lemmas + correspondence of the extracted model with the real function "
           "on all boundary-aligned (start,end) pairs, and the extracted instance predicate holds_C18 evaluated on the "
           "implementation's real before/after memory."),
     note=("Trusted: Coq kernel+VM, the expression translator (self-tested in Coq against Python eval), ExtrOcamlBasic "
